@@ -1382,6 +1382,9 @@ fn kind_psef(rng: &mut Rng, out: &mut Out, id: &str, tier: &str) {
         2 => (0..n).map(|_| rng.below(3) as usize).collect(),
         _ => { let w = rng.range(1, 50); (0..n).map(|_| (rng.next() & ((1u64 << w) - 1)) as usize).collect() }
     };
+    if n == 1 && rng.chance(1, 2) {
+        vals[0] = rng.pick(&[1usize << 63, (1usize << 63) - 1, (1usize << 63) + 1, usize::MAX - 1, usize::MAX - 2, 1usize << 62]);
+    }
     // make sure the sum stays below usize::MAX
     let mut sum: u128 = vals.iter().map(|&x| x as u128).sum();
     while sum >= usize::MAX as u128 {
